@@ -39,6 +39,7 @@ unsigned           verif_stream_cnt(void *oss, unsigned i);
 unsigned           verif_stream_ncnt(void *oss, unsigned i);
 unsigned           verif_stream_nl(void *oss);
 int                verif_stream_before(void *oss, unsigned i, unsigned j);
+unsigned           verif_lock_depth(void);   // model: current depth of the global recursive mutex; native: always 0
 #ifdef VERIF_SYMBOLIC
 unsigned           verif_stream_ntok(void *oss);
 unsigned           verif_stream_nnum(void *oss);
